@@ -11,14 +11,15 @@ func (p *ParserPlanner) logfmt(str string, labels *map[string]string) (map[strin
 
 type logFmtParser struct {
 	labels *map[string]string
-	fields map[string]string
+	fields map[string][]string
 }
 
 func (p *logFmtParser) HandleLogfmt(key, val []byte) error {
 	if p.fields != nil {
-		l := p.fields[string(key)]
-		if l != "" {
-			(*p.labels)[l] = string(val)
+		for _, l := range p.fields[string(key)] {
+			if l != "" {
+				(*p.labels)[l] = string(val)
+			}
 		}
 		return nil
 	}
